@@ -347,7 +347,10 @@ def explore(prop_id, plan, workers=None, log=print):
   fstats = []
   ctx = multiprocessing.get_context("fork")
   with ctx.Pool(workers, initializer=_init_worker) as pool:
+    only = os.environ.get("VERIF_ONLY_FAMILY") if os.environ.get("TTCONV_REPO") else None   # debugging aid, scratch trees only
     for fi, fam in enumerate(plan):
+      if only and only not in fam.name:
+        continue
       t0 = time.time()
       facc = Acc()
       if fam.kind == "inputs":
